@@ -27,8 +27,8 @@ CLAIMS = {
             ref="3/C04", note=SCEN + TRUST),
  "C05": dict(text="Follower MsgAppend over concrete term patterns (duplicate, conflict in unstable / stable region, extension, reject with hint, empty) with symbolic cursors and message term: post-log equals the sequence model, truncation exactly at the first conflict, nothing at or below commit changes; RaftLog::maybe_append likewise; leaders never rewrite their log in any leader scenario. " + DEC,
             ref="3/C05", note=SCEN + TRUST),
- "C06": dict(text="RawNode ready/persist/advance cycles: term never decreases; a non-leader releases messages only as persisted_messages; a granted vote is recorded in the hard state of the same Ready and that Ready is must_sync even when only the vote changed; what a leader sends immediately carries an already durable term; stale persistence notices never move persisted onto unwritten entries. Found and fixed a genuine defect (single-voter leader with learners). Crash/restart images are not explored (see level_note).",
-            ref="3/C06", note="Restart from a durable image (RawNode::new) is not executed symbolically (Raft::new + restore is too slow); the persist-before-send clauses are checked per Ready. " + SCEN + TRUST),
+ "C06": dict(text="RawNode ready/persist/advance cycles: term never decreases; a non-leader releases messages only as persisted_messages; a granted vote is recorded in the hard state of the same Ready and that Ready is must_sync even when only the vote changed; what a leader sends immediately carries an already durable term; stale persistence notices never move persisted onto unwritten entries. Restart: RawNode::new on a durable image reproduces exactly the durable term / vote / commit, leaves the log untouched and resumes apply after the applied index. Found and fixed a genuine defect (single-voter leader with learners).",
+            ref="3/C06", note="Crash points are not enumerated as such: 'never behind anything it told another node' follows from (per Ready) promises are released only with / after the hard state and entries that cover them + (restart) the restarted node equals its durable image. " + SCEN + TRUST),
  "C07": dict(text="Every clause of the Ready contract on real RawNode cycles: entries = unstable suffix handed once, hs present iff changed, must_sync rule, committed entries = exactly the committed, persisted, not-yet-handed range (contiguous, in order, none unpersisted), LightReady continues without gap/duplicate, has_ready() agrees with ready(), snapshot Ready, async persistence with an overwriting append in between.",
             ref="3/C07", note="max_committed_size_per_ready pagination and max_apply_unpersisted_log_limit > 0 are outside the checked scenarios. " + SCEN + TRUST),
  "C08": dict(text="Leader read-index scenarios (3 / 5 voters, joint, learner, forwarded, duplicate ack, wrong context, singleton, not yet committed in term, loss of leadership) and the follower side: a read state appears only after a joint quorum of distinct voters acknowledged the request's context, carries the commit index recorded at request time, and goes only to the requester; pending reads die with the term. " + DEC,
